@@ -892,7 +892,8 @@ def c12(tier, hook=None):
 
     def twin_only(i):
         m = meta[i]
-        src = rf.HEAD + "#[derive(%s)] %s\n" % (", ".join(m["traits"]), m["item"])
+        dv = "#[derive(%s)]" % ", ".join(m["traits"])
+        src = rf.HEAD + ((m["item"].replace("@HEAD@", dv)) if "@HEAD@" in m["item"] else "%s %s" % (dv, m["item"])) + "\n"
         ok, diags = dx.check_only("t%d" % i, src, wd)
         return i, ok
     for i, ok in dx.pmap(twin_only, todo):
